@@ -373,6 +373,8 @@ def famB_alive(rng, tier, kinds=('001', '011'), iflike_rate=0.0):
     for i, p in enumerate(progs):
         if i % 4 == 1:
             p.unnamed = True            # evaluated on an unnamed thread: branch threads must be called join_<i>
+        if i % 3 == 2:
+            p.macro = {'001': 'spawn', '011': 'try_spawn'}.get(p.kind)     # the alias entry points behave exactly like their targets
     return progs
 
 
@@ -920,7 +922,7 @@ def run_property(pid, P, rng, tier, seed, escalate=False, only_B=False):
             rep['witnesses'].append(f)
     if P.get('nest'):
         import nest
-        r = nest.run(tier, which=(P['nest'] if P['nest'] in ('opts', 'asyncpanic', 'names', 'pairs') else 'nest'))
+        r = nest.run(tier, which=(P['nest'] if P['nest'] in nest.LISTS else 'nest'))
         rep['B_cases'] += r['cases']
         rep['b4_distinct'] = rep.get('b4_distinct', 0) + r['cases']
         rep['families']['B:nest'] = dict(r['dist'], failures=len(r['failures']), rejected=len(r['rejected']))
